@@ -1081,7 +1081,6 @@ awaitmoredata:
 			// t1, t2 = t2, time.Now()
 			// fmt.Printf("Time required to trimPacketsBefore: %v\n", t2.Sub(t1))
 
-			verifAcc("rloc", nil, true) // the reader loop's own working state (chanProcessed, bytesProcessed, ...)
 			// Demux data into this slice of slices of RawType
 			datacopies := make([][]RawType, as.nchan)
 			for i := 0; i < as.nchan; i++ {
@@ -1109,7 +1108,7 @@ awaitmoredata:
 				fmt.Printf("Panic! %s\n", msg)
 				panic(msg)
 			}
-			verifAcc("rloc", nil, false)
+			verifAcc("rloc", nil, true) // the reader loop's own working state (bytesProcessed, droppedFrames, ...) is used here
 			verifSync("send", "bufc", as.buffersChan)
 			as.buffersChan <- AbacoBuffersType{
 				datacopies:     datacopies,
